@@ -137,6 +137,14 @@ theorem tagBN_saved {ds w : List Char} (hd : Digits ds) (hw : parseBranchStr w =
   rw [parseBuildTag_spec hd]
   simp only [hw]
 
+/-- the same tag on a commit without a version file: major and minor are unknown (`'?'`) -/
+theorem tagBN_unknown {ds w : List Char} (hd : Digits ds) (hw : parseBranchStr w = none) :
+    tagBN none (Gen.Ghist.tagPre ++ ds ++ Gen.Ghist.tagSep ++ w ++ Gen.Ghist.tagSuf) =
+      .ok (some ⟨unknownNum, unknownNum, digitsVal ds 0, digitsVal ds 0⟩) := by
+  unfold tagBN
+  rw [parseBuildTag_spec hd]
+  simp only [hw]
+
 /-- names that do not start with `build_` or do not end with `_success` are no build tags -/
 theorem tagBN_ignored (saved : Option (Nat × Nat)) (s : List Char)
     (h : (¬ ∃ r, s = Gen.Ghist.tagPre ++ r) ∨ (¬ ∃ r, s = r ++ Gen.Ghist.tagSuf)) : tagBN saved s = .ok none := by
